@@ -50,6 +50,7 @@ class Ob:
     selfcheck: bool = True
     nonneg: tuple = ()
     kind: str = "equal"
+    replay: Callable | None = None  # replay(args) -> (differs, detail): concrete confirmation on the real code for custom obligations
 
 
 @dataclass
@@ -259,6 +260,8 @@ def key_arg_positions(ob):
 
 def replay_concrete(ob: Ob, args, nkeys=None):
     """Run the real code eagerly on concrete args; return (differs, detail)."""
+    if ob.replay is not None:
+        return ob.replay(args)
     kpos = key_arg_positions(ob)
     nkeys = nkeys if nkeys is not None else ob.replay_keys
     trials = range(nkeys) if kpos else range(1)
@@ -478,6 +481,10 @@ def decide(ob: Ob, pid: str, known: list) -> Result:
                 regions.append((k, region_term(k["region"], sym_args, ob)))
         verdict = _solve(ob, pid, res, assumptions, diffs, regions, registry)
         res.verdict = verdict
+        if verdict == "sat" and res.reproduced:
+            for k in my_known:  # a finding recorded for this one obligation as a whole (its glob names a single program/call site)
+                if k.get("whole_obligation"):
+                    res.known = k["id"]
         if verdict == "sat" and not res.reproduced and mode == "uf" and len(modes) > 1:
             continue  # spurious in the abstraction: retry exactly
         break
